@@ -233,8 +233,18 @@ func NIA1(ik [16]byte, countI uint32, bearer byte, direction uint32, msg []byte,
 			Eval = mul(Eval^M, P, 0x000000000000001b)
 		}
 
+		// Only the first length bits belong to the message (TS 35.215: the last block is padded with zeros):
+		// octets beyond them and the unused low bits of the last octet are ignored.
+		need := (length + 7) / 8
+		end := need
+		if end > uint64(len(msg)) {
+			end = uint64(len(msg))
+		}
 		tmp := make([]byte, 8)
-		copy(tmp, msg[8*(D-2):])
+		n := copy(tmp, msg[8*(D-2):end])
+		if r := length % 8; r != 0 && end == need && n > 0 {
+			tmp[n-1] &= 0xFF << (8 - r)
+		}
 		M := binary.BigEndian.Uint64(tmp)
 		Eval = mul(Eval^M, P, 0x000000000000001b)
 	}
